@@ -193,6 +193,54 @@ def coreStep (st : CoreSt) (ws : List String) : CoreSt × String :=
       let o := search st.doms.size (some obj) pol driverFuel st.props st.store
       (st, showOut o)
     | _, _ => (st, "bad-op")
+  | "limit" :: k :: kind :: call :: seed :: r =>
+    match k.toNat?, kind.toNat?, parseInt? seed with
+    | some k, some kd, some sd =>
+      let pol := if sd < 0 then Policy.fifo else Policy.seeded sd.toNat
+      /- hook H6: from iteration k on the limit is zero, so every check with count ≥ k fires;
+         kind 0 = timeout, 1 = memory; kind ≥ 2: real memory limit of k MB, interval 1 -/
+      let fire : Nat → Nat → Bool :=
+        if kd ≤ 1 then fun c _ => decide (c ≥ k) else fun c d => decide (memUsageMb d c > k)
+      let lk : LimKind := if kd = 0 then .time else .memory
+      let mkPost (r : LimOut) : Option LimKind :=
+        if kd ≤ 1 then none else (if memUsageMb r.depth r.count > k then some .memory else none)
+      let showRes (x : SolveRes) : String :=
+        match x with
+        | .ok v => s!"ok {",".intercalate (v.map toString)}"
+        | .noSolution => "nosolution"
+        | .timeout => "timeout"
+        | .memoryLimit => "memory"
+      let finishSolve (res : Option LimOut × List (List Int) × Bool) (useLast : Bool) : String :=
+        if res.2.2 then "out-of-fuel" else
+        match res.1 with
+        | some lo =>
+          if lo.fired then showRes (limErr lk)
+          else match mkPost lo with
+            | some k => showRes (limErr k)
+            | none =>
+              match (if useLast then lo.delivered.getLast? else lo.delivered.head?) with
+              | some v => showRes (.ok v)
+              | none => showRes .noSolution
+        | none =>
+          match (if useLast then res.2.1.getLast? else res.2.1.head?) with
+          | some v => showRes (.ok v)
+          | none => showRes .noSolution
+      match call, r with
+      | "solve", [] =>
+        (st, finishSolve (searchL st.doms.size none pol fire true driverFuel st.props st.store) false)
+      | "enum", [] =>
+        let res := searchL st.doms.size none pol fire false driverFuel st.props st.store
+        if res.2.2 then (st, "out-of-fuel") else
+        let sols := match res.1 with | some lo => lo.delivered | none => res.2.1
+        (st, s!"n={sols.length} sols={";".intercalate (sols.map (fun v => ",".intercalate (v.map toString)))}")
+      | "min", _ | "max", _ =>
+        match parseView r with
+        | some (v, []) =>
+          let obj := if call = "max" then IView.opp v else v
+          (st, finishSolve (searchL st.doms.size (some obj) pol fire false driverFuel st.props st.store) true)
+        | _ => (st, "bad-op")
+      | _, _ => (st, "bad-op")
+    | _, _, _ => (st, "bad-op")
   | _ => (st, "bad-op")
 
 end Driver
